@@ -277,3 +277,80 @@ func H02s_twin() {
 		vAssert(false, "H02s_twin.reach: reachable")
 	}
 }
+
+// H02u: the multi-presentation loops of the response endpoint at quick cost: state, tenant, time, submission and
+// PEX are those of a valid response for session "s1" (definition "o" only); the envelope has 0..u_vps presentations
+// with arbitrary challenge / audience / subject / VerifyVP verdict each. A code is issued iff EVERY presentation
+// passes every check.
+func H02u() {
+	w := hVPNewWorld()
+	r, db := w.r, w.db
+	hC02Clock = time.Unix(hVPT0, 0)
+	vAssert(r.oauthClientStateStore().Put("s1", hVPSessionOf(0, "cl", "sc", hVPRedirect)) == nil, "H02u.setup: cannot store session")
+	vAssert(r.oauthNonceStore().Put("n1", "s1") == nil, "H02u.setup: cannot store nonce")
+	vAssert(r.oauthNonceStore().Put("n2", "s1") == nil, "H02u.setup: cannot store nonce") // a second flow's nonce of the same session
+	var specs []hVPPres
+	hVPEnvelopes["vp"] = hVPDrawEnvelope(w, "vp", vParam("u_vps", 2), &specs)
+	hVPSubmissions["sub"] = &pe.PresentationSubmission{Id: "sub", DefinitionId: "o"}
+	hVPPEXVerdict["sub"] = true
+	state, tok, sub := "s1", "vp", "sub"
+	_, err := r.handleAuthorizeResponseSubmission(context.Background(), HandleAuthorizeResponseRequestObject{SubjectID: "s",
+		Body: &HandleAuthorizeResponseFormdataRequestBody{State: &state, VpToken: &tok, PresentationSubmission: &sub}})
+	codes := db.putCount("oauth/code")
+	n := len(specs)
+	sameNonce, allOK := true, n >= 1
+	for _, s := range specs {
+		sameNonce = sameNonce && s.challenge == specs[0].challenge
+		allOK = allOK && (s.challenge == "n1" || s.challenge == "n2") && s.domain == hVPServerURL && (s.subjectID == "-" || s.subjectID == "a") && s.verdict
+	}
+	allOK = allOK && sameNonce
+	if err == nil {
+		vCover("code-issued")
+		vAssert(codes == 1, "H02u.one_code: success without exactly one code")
+		vAssert(n >= 1, "H02u.has_presentations: code issued without a presentation")
+		for _, s := range specs {
+			vAssert(s.challenge == specs[0].challenge && (s.challenge == "n1" || s.challenge == "n2"), "H02u.nonce_checked: code issued although not every presentation carries one nonce of the session")
+			vAssert(s.domain == hVPServerURL, "H02u.audience_checked: code issued for a presentation addressed to another audience")
+			vAssert(s.subjectID == "-" || s.subjectID == "a", "H02u.signer_checked: code issued for a presentation not signed by the subject of its credentials")
+			vAssert(s.verdict, "H02u.presentation_verified: code issued for a presentation that does not verify")
+			vAssert(w.ver.verifiedFully(s.id), "H02u.verify_called_for_every_presentation: VerifyVP(p, true, true, nil) was not called for a presentation")
+		}
+		vAssert(db.live("oauth/nonce", specs[0].challenge) < 0, "H02u.nonce_burned: honoured nonce still redeemable")
+		if n == 2 {
+			vCover("code-issued-2-presentations")
+		}
+		return
+	}
+	vCover("refused")
+	vAssert(codes == 0, "H02u.no_code_on_failure: an authorization code was stored although the response was refused")
+	vAssert(!allOK, "H02u.valid_response_refused: a response passing every check was refused")
+	for _, s := range specs {
+		if s.challenge == "n1" || s.challenge == "n2" {
+			vAssert(db.live("oauth/nonce", s.challenge) < 0, "H02u.presented_nonce_burned: a nonce presented in a refused response is still redeemable")
+		}
+	}
+	if n == 2 && !sameNonce {
+		vCover("refused-mixed-nonces")
+	}
+	if n == 2 && specs[0].verdict && !specs[1].verdict {
+		vCover("refused-second-presentation")
+	}
+}
+
+func H02u_twin() {
+	w := hVPNewWorld()
+	r, db := w.r, w.db
+	hC02Clock = time.Unix(hVPT0, 0)
+	_ = r.oauthClientStateStore().Put("s1", hVPSessionOf(0, "cl", "sc", hVPRedirect))
+	_ = r.oauthNonceStore().Put("n1", "s1")
+	var specs []hVPPres
+	hVPEnvelopes["vp"] = hVPDrawEnvelope(w, "vp", 2, &specs)
+	hVPSubmissions["sub"] = &pe.PresentationSubmission{Id: "sub", DefinitionId: "o"}
+	hVPPEXVerdict["sub"] = true
+	state, tok, sub := "s1", "vp", "sub"
+	_, err := r.handleAuthorizeResponseSubmission(context.Background(), HandleAuthorizeResponseRequestObject{SubjectID: "s",
+		Body: &HandleAuthorizeResponseFormdataRequestBody{State: &state, VpToken: &tok, PresentationSubmission: &sub}})
+	if err == nil && db.putCount("oauth/code") == 1 && len(specs) == 2 && len(w.ver.calls) == 2 {
+		vAssert(false, "H02u_twin.reach: reachable")
+	}
+}
